@@ -23,7 +23,7 @@ const modPath = "github.com/openfga/openfga"
 
 // testSupport lists non-_test packages that only serve tests; they are excluded from
 // who-may-call / who-may-construct rules (frozen list, DESIGN §1 A4).
-var testSupport = []string{"tests", "pkg/server/test", "pkg/storage/test", "pkg/testutils", "pkg/testfixtures", "internal/mocks"}
+var testSupport = []string{"tests", "pkg/server/test", "pkg/storage/test", "pkg/testutils", "pkg/testfixtures", "internal/mocks", "internal/test"}
 
 type Engine struct {
 	Repo    string
@@ -67,6 +67,14 @@ func isTestSupport(pkgPath string) bool {
 
 func Load(repo string, extraEnv []string, overlay map[string][]byte) (*Engine, error) {
 	env := append(os.Environ(), "GOWORK=off", "GOFLAGS=-mod=mod", "GOPROXY=off", "GOTOOLCHAIN=local")
+	// the system go (1.23) cannot load /repo (go.mod needs >= 1.25.7): put the pre-installed
+	// go1.26.8 first for go/packages' `go list` driver.
+	if _, err := os.Stat("/opt/veriftools/go1.26.8/bin/go"); err == nil {
+		if !strings.HasPrefix(os.Getenv("PATH"), "/opt/veriftools/go1.26.8/bin:") {
+			os.Setenv("PATH", "/opt/veriftools/go1.26.8/bin:"+os.Getenv("PATH")) // exec.LookPath uses the process PATH
+		}
+		env = append(env, "PATH="+os.Getenv("PATH"))
+	}
 	env = append(env, extraEnv...)
 	cfg := &packages.Config{
 		Mode:    packages.LoadAllSyntax,
